@@ -73,6 +73,16 @@ add("C25", "TLC exhaustive on ClVIResume.tla (all crash points, both strategies,
     "compared bit for bit with the uninterrupted one. All histories are validated against ClVIResumeTrace.tla.",
     TRUST + "crash = process kill; fsync/power-loss durability is outside the model.")
 
+add("C26", "TLC exhaustive on SampleListFS.tla and StreamStat.tla + replay of TLC histories / streams into the real sample lists (simulated communicator) and statistics",
+    "Save / overwrite / load histories of plain and residual sample lists under prefix-related base names with any number of tasks on either side are "
+    "specified in SampleListFS.tla (unlink-next rule, per-rank shares, partial effects of refused saves, stale mean removal); TLC checks FaithfulNow and "
+    "NoStaleMean for all histories of <=3 operations, n<=3/4 samples, <=3/4 tasks. Simulated histories of 5 operations and all 2-operation histories are "
+    "replayed with the real SampleList / ResidualSampleList (fields and multi-fields) in a scratch directory under a process-per-rank communicator; every "
+    "load after a successful save must return exactly the saved samples in order on every rank. StreamStat.tla gives mean and unbiased variance of all "
+    "integer streams up to length 4/6 as exact rationals (and checks the Welford recurrence against the closed form); StatCalculator, sample_stat, "
+    "average and the HDF5 export are compared with them.",
+    TRUST + "the simulated communicator (no libmpi in the sandbox).")
+
 
 def main():
     props = [json.loads(l) for l in open(os.path.join(HERE, "properties.jsonl"))]
